@@ -1,4 +1,4 @@
-from . import rules_panic, rules_text, rules_sq, inputs
+from . import rules_panic, rules_text, rules_sq, rules_notation, inputs
 
 
 CONTROL_KEYS = ['PANIC-SITE/<ctl_parse::Num as std::str::FromStr>::from_str/std::result::Result::<T, E>::unwrap',
@@ -19,29 +19,27 @@ def run(ctx, prog, facts, tier):
     ctx.rule('C16.canon', 'integers inside the notation are parsed from exactly one character (char::to_string): the integer parser of std '
                           'also accepts a leading + and leading zeros, so parsing an unbounded piece of text would accept strings that are '
                           'not the printed form of the result')
-    nparse = 0
     for e in I.events:
         if e[0] == 'int-parse':
-            nparse += 1
             ok = e[3] == 'one-char'
             ctx.ob('integer parse in %s is applied to a one-character string' % e[1], ok, sample=True)
             if not ok:
                 ctx.finding('C16.canon', e[1] or '?', 'int-parse', 'an integer is parsed from text of unbounded length: "+1", "01", "0008" '
                             'would be accepted although they are never printed', at=e[2])
-    ctx.floor('integer parses inside the notation parsers', nparse, 1)
-    rules_text.check_piece_direction_tables(ctx, prog)
-    rules_text.check_action_delegation(ctx, prog)
     I2 = inputs.make_interp(prog)
     rules_sq.check_conversions(ctx, prog, I2)
     rules_sq.check_display(ctx, prog, I2)
-    rules_sq.check_parser(ctx, prog)
-    ctx.floor('C16 parser panic site kinds (function, construct)', ctx.analysed.get('panic_site_kinds_parser', 0), 3)
+    # what each parser accepts and returns, decided as a table over symbolic characters (independent of how it is written)
+    rules_notation.check_notation(ctx, prog)
     ctx.exhaustive = True
     ctx.assumptions += [
-        'the 64 squares are enumerated as constants through the interpreter (finite domain); which of the two characters of the '
-        'text is the file is not distinguished by the opaque-string model (the element token is position-blind)',
+        'the 64 squares are enumerated as constants through the interpreter (finite domain)',
+        'C16.N decides texts of 0..6 characters; each character ranges over classes of code points represented by a candidate '
+        'alphabet (ASCII, the low-byte / low-word aliasing windows, the extremes): a test that singles out a code point outside the '
+        'alphabet without comparing against a constant inside it would not be seen; longer texts are covered by the length tests '
+        'being equalities (C16.N rejects 4..6 characters) and by C16.canon',
         'contract table: chars/collect/to_string/parse::<usize>/RangeInclusive::contains do not panic; Vec indexing is discharged '
         'from the dominating length comparison']
     return ('Panic-freedom of the four notation parsers for an arbitrary opaque string (vector indexing and slicing discharged from '
-            'the dominating length tests, arithmetic from range tests, no lossy narrowing cast); letter tables printed vs parsed; '
-            'delegation structure of Action.', ['factgen MIR export', 'std contract table in analysis/summaries.py'])
+            'the dominating length tests, arithmetic from range tests, no lossy narrowing cast); decision tables of the four '
+            'parsers over symbolic characters against the printed forms; square conversions on all 64 squares.', ['factgen MIR export', 'std contract table in analysis/summaries.py'])
